@@ -177,11 +177,16 @@ def native(copy, tests, timeout=3000):
         crate, pkg, base = place(f)
         cmd = ['cargo', 'test', '--offline', '-p', pkg, '--test', 'verif_' + base] + (['--release'] if envt else []) + ['--']
         cmd += [t[1].split('@')[0] for t in ts] + ['--exact', '--nocapture', '--test-threads', '8']
-        try:
-            p = subprocess.run(cmd, cwd=copy, env=env, capture_output=True, text=True, timeout=timeout)
-            out = p.stdout + '\n' + p.stderr
-        except subprocess.TimeoutExpired:
-            out = 'TIMEOUT'
+        out = ''
+        for attempt in (1, 2):   # one retry when the run produced no result line at all (build killed under memory pressure, lock contention)
+            try:
+                p = subprocess.run(cmd, cwd=copy, env=env, capture_output=True, text=True, timeout=timeout)
+                out = p.stdout + '\n' + p.stderr
+            except subprocess.TimeoutExpired:
+                out = 'TIMEOUT'
+                break
+            if 'NB-RESULT' in out:
+                break
         shown = ' '.join('%s=%s' % kv for kv in envt) + (' ' if envt else '') + ' '.join(cmd)
         for m in re.finditer(r'NB-RESULT name=(\S+) status=(\S+) cases=(\d+) key=(.*?)(?: detail=(.*))?$', out, re.M):
             key = m.group(4).strip()
